@@ -153,10 +153,22 @@ Definition dec_pj (j : json) : pj_input :=
    signature it has verified with ed25519 against the local public key) ---------- *)
 Definition sig_marker : json := JStr (bs "<VALID-SIGNATURE>").
 
-Definition marker_sign (name key : bytes) (ev : json) : json :=
+(* Event.Sign re-encodes the event through a Go map: of a repeated top-level member only the last
+   occurrence survives (members inside content are kept as they are) *)
+Fixpoint dedup_last {A} (m : list (bytes * A)) : list (bytes * A) :=
+  match m with
+  | [] => []
+  | (k, v) :: m' => if mem_bytes k (map fst m') then dedup_last m' else (k, v) :: dedup_last m'
+  end.
+Definition dedup_top (ev : json) : json :=
+  match ev with JObj m => JObj (dedup_last m) | _ => ev end.
+
+Definition marker_sign0 (name key : bytes) (ev : json) : json :=
   let sigs := match jget (bs "signatures") ev with Some (JObj m) => JObj m | _ => JObj [] end in
   let mine := match jget name sigs with Some (JObj m) => JObj m | _ => JObj [] end in
   jset (bs "signatures") (jset name (jset key sig_marker mine) sigs) ev.
+
+Definition marker_sign (name key : bytes) (ev : json) : json := marker_sign0 name key (dedup_top ev).
 
 (* ---------- printing ---------- *)
 Definition nl : bytes := [10].
